@@ -16,12 +16,17 @@ c12 = importlib.util.module_from_spec(spec)
 spec.loader.exec_module(c12)
 
 USES = ["write", "read", "pwrite", "pread", "seek", "tell", "filestat", "prestat", "prestatname", "readdir", "fdstat", "sync",
-        "open-as-dir", "mkdir", "unlink", "pathstat", "rename", "readlink"]
+        "open-as-dir", "open-abs", "open-abs-creat", "mkdir", "unlink", "pathstat", "rename", "readlink"]
+PATHUSES = ["open-as-dir", "open-abs", "open-abs-creat", "mkdir", "unlink", "pathstat", "rename", "readlink"]
 
 
 def use(kind, fd, abi):
     if kind == "open-as-dir":
         return {"call": "open", "abi": abi, "dirfd": fd, "path": "a", "abs": False, "oflags": 0, "rd": True, "wr": False, "app": False}
+    if kind in ("open-abs", "open-abs-creat"):
+        # an absolute guest path does not need the directory's path, but the directory descriptor must still be live
+        return {"call": "open", "abi": abi, "dirfd": fd, "path": "a" if kind == "open-abs" else "fresh", "abs": True,
+                "oflags": 0 if kind == "open-abs" else 1, "rd": True, "wr": kind != "open-abs", "app": False, "parent": ""}
     if kind in ("write", "pwrite"):
         return {"call": kind, "abi": abi, "fd": fd, "segs": [[1, 2]], "offset": 1}
     if kind in ("read", "pread"):
@@ -56,6 +61,12 @@ def lifecycle_histories(rng, tier):
                 calls.append({"call": "open", "abi": "p", "dirfd": 3 if x != 3 else 5, "path": "a" if x != 3 else "c", "abs": False, "oflags": 1, "rd": True, "wr": True, "app": False})
                 hs.append({"id": "l%d" % n, "setup": setup, "calls": calls})
                 n += 1
+    # the standard streams are not directories: every path-taking call through them is refused
+    for x in (0, 1, 2):
+        for k1 in PATHUSES:
+            calls = list(opens) + [use(k1, x, rng.choice("pu")), {"call": "open", "abi": "p", "dirfd": 3, "path": "a", "abs": False, "oflags": 0, "rd": True, "wr": False, "app": False}]
+            hs.append({"id": "s%d" % n, "setup": setup, "calls": calls})
+            n += 1
     for x in (6, 7, 100, 0xFFFFFFFF, 0x7FFFFFFF):
         for k1 in USES + ["close"]:
             calls = list(opens) + [{"call": "close", "abi": "p", "fd": x} if k1 == "close" else use(k1, x, rng.choice("pu"))]
